@@ -53,10 +53,22 @@ func (calc *convexHullCalculator) getConvexHull() geom.T {
 		return geom.NewPointFlat(calc.layout, calc.inputPts)
 	}
 	if len(calc.inputPts)/calc.stride == 2 {
+		if internal.Equal(calc.inputPts, 0, calc.inputPts, calc.stride) {
+			return geom.NewPointFlat(calc.layout, calc.inputPts[:calc.stride])
+		}
 		return geom.NewLineStringFlat(calc.layout, calc.inputPts)
 	}
 
 	reducedPts := transform.UniqueCoords(calc.layout, comparator{}, calc.inputPts)
+
+	// The hull degenerates according to the number of distinct points, not the number of
+	// input points: the scan below needs at least three distinct points.
+	switch len(reducedPts) / calc.stride {
+	case 1:
+		return geom.NewPointFlat(calc.layout, reducedPts)
+	case 2:
+		return geom.NewLineStringFlat(calc.layout, reducedPts)
+	}
 
 	// use heuristic to reduce points, if large
 	if len(calc.inputPts)/calc.stride > 50 {
